@@ -17,6 +17,8 @@ static void mode_sched(void){
   int fidx=vc_chance(&r,1,2)?3:vc_below(&r,9); int D48=vk_frame_samples(48000,fidx); double Dms=D48/48.0; int fs=vk_frame_samples(Fs,fidx);
   int dtx=vc_chance(&r,4,5); int vbr=vc_chance(&r,2,3); int bitrate=vc_chance(&r,1,6)?OPUS_AUTO:vc_range(&r,8000,64000)*ch; int fmode=vc_chance(&r,1,2)?OPUS_AUTO:VK_MODE_SILK+(int)vc_below(&r,3);
   int antiphase=(ch==2)&&vc_chance(&r,1,8);
+  /* the DTX-off clause at its boundary: a bitrate of exactly (or just above) three bytes per frame, frames of 20 ms or less, DTX disabled */
+  int boundary=0; if(Dms<=20&&vc_chance(&r,1,10)){ static const int off[6]={0,0,0,1,8,80}; bitrate=(int)(24*1000/Dms)+off[vc_below(&r,6)]; dtx=0; boundary=1; }
   int onset_q=vc_chance(&r,1,2)?0:(int)vc_range(&r,1,6);   /* eighths of the first active frame that are still digital silence */
   OpusEncoder *e=opus_encoder_create(Fs,ch,app,&err); opus_encoder_ctl(e,OPUS_SET_DTX(dtx)); opus_encoder_ctl(e,OPUS_SET_COMPLEXITY(cx)); opus_encoder_ctl(e,OPUS_SET_BITRATE(bitrate)); opus_encoder_ctl(e,OPUS_SET_VBR(vbr)); if(fmode!=OPUS_AUTO) opus_encoder_ctl(e,VK_SET_FORCE_MODE_REQUEST,fmode);
   if(vc_chance(&r,1,4)) opus_encoder_ctl(e,OPUS_SET_SIGNAL(OPUS_SIGNAL_VOICE));
@@ -28,7 +30,7 @@ static void mode_sched(void){
     int np=(int)(ms/Dms+0.5); if(s==0&&np<(int)(400/Dms)+1) np=(int)(400/Dms)+1; /* let the encoder and analysis settle on activity first */ seg_len[s]=np; seg_act[s]=act; total+=np; act=!act; if(total*Dms>14000){ nseg=s+1; break; } }
   vc_siggen g; vs_init(&g,VS_SPEECHLIKE,Fs,ch,0.6f,vc_next(&r)); static float in[5760*2], oA[5760*2], oB[5760*2]; unsigned char pk[1500]; int maxb=vc_chance(&r,1,6)?vc_range(&r,3,40):1500;
   /* budget: the DTX-off clause and "DTX packet" interpretation need >= 3 bytes per coded frame */
-  double subms= Dms<=20?Dms:20; long br_eff= bitrate==OPUS_AUTO?(long)(60*1000/Dms+Fs*ch):bitrate; int nsub=(int)(Dms/subms+0.5); int budget_ok= maxb>=1500 /* small buffers make the encoder fall back to 1-2 byte 'conceal this' packets whatever the DTX setting: they are run for robustness but are outside the packet-size clauses */ && br_eff*subms/8000.0>=4.0; (void)nsub;
+  double subms= Dms<=20?Dms:20; long br_eff= bitrate==OPUS_AUTO?(long)(60*1000/Dms+Fs*ch):bitrate; int nsub=(int)(Dms/subms+0.5); int budget_ok= maxb>=1500 /* small buffers make the encoder fall back to 1-2 byte 'conceal this' packets whatever the DTX setting: they are run for robustness but are outside the packet-size clauses */ && (boundary? br_eff*Dms/8000.0>=3.0 : br_eff*subms/8000.0>=4.0); (void)nsub; if(boundary) vc_count("dtx_off_cases_at_three_bytes_per_frame",1);
   char desc[260]; snprintf(desc,sizeof desc,"Fs=%d ch=%d app=%d cx=%d frame=%.1fms dtx=%d vbr=%d bitrate=%d mode=%d maxb=%d onset at %d/8 of a frame%s",Fs,ch,app,cx,Dms,dtx,vbr,bitrate,fmode,maxb,onset_q,antiphase?" antiphase":"");
   int run=0; /* consecutive <=2-byte packets */ double active_rms_in=0; long nact=0; int refresh_seen=0;
   for(int s=0;s<nseg;s++){ int first_dtx_at=-1; int act_now=seg_act[s]; double eA=0,eB=0,eI=0; long eN=0;
